@@ -36,6 +36,157 @@ func runC01(c *engine.Ctx) {
 	checkDeadlineDisarm(c, "R12")
 	checkHandOverFlags(c, "R13")
 	checkFreshLookup(c, "R14") // shared with C06.R13: a connection is bridged to the listener the registry names now
+	checkMuxPriorities(c, "R15")
+}
+
+// checkMuxPriorities (R15): on the shared bind port golib's mux asks its sub-listeners in ascending priority and gives
+// the connection to the first whose matcher accepts the first bytes. The frp-TLS sub-listener's matcher accepts the custom
+// head byte and also 0x16 — the first byte of every TLS ClientHello — "only when the vhost https port is not the bind
+// port": it relies on the HTTPS vhost sub-listener being asked first. So every sub-listener whose matcher accepts 0x16 must
+// be registered with a priority number greater than that of every ListenHTTPS registration.
+func checkMuxPriorities(c *engine.Ctx, rule string) {
+	c.Rule(rule, "server: every mux sub-listener whose matcher accepts the TLS record byte 0x16 has a priority number greater than every ListenHTTPS registration (the vhost HTTPS listener sees TLS connections first)")
+	p := c.P
+	var muxListen, muxHTTPS *types.Func
+	for path, pk := range p.ByPath {
+		if strings.HasSuffix(path, "golib/net/mux") && pk.Types != nil {
+			if n, _ := pk.Types.Scope().Lookup("Mux").(*types.TypeName); n != nil {
+				if named, ok := n.Type().(*types.Named); ok {
+					for i := 0; i < named.NumMethods(); i++ {
+						switch named.Method(i).Name() {
+						case "Listen":
+							muxListen = named.Method(i)
+						case "ListenHTTPS":
+							muxHTTPS = named.Method(i)
+						}
+					}
+				}
+			}
+		}
+	}
+	if muxListen == nil || muxHTTPS == nil {
+		c.Missing("golib/net/mux.Mux", "mux methods not found")
+		return
+	}
+	constInt := func(v ssa.Value) (int64, bool) {
+		if z, ok := engine.ConstInt(v); ok {
+			return z, true
+		}
+		src := engine.DeepSources(p, v)
+		if len(src.Consts) == 1 && len(src.Calls) == 0 && len(src.Fields) == 0 {
+			for k := range src.Consts {
+				var z int64
+				if _, err := fmt.Sscanf(k, "%d", &z); err == nil {
+					return z, true
+				}
+			}
+		}
+		return 0, false
+	}
+	var httpsPrio, tlsPrio []int64
+	undecided := ""
+	var pos token.Pos
+	acceptsTLSByte := func(fnv ssa.Value) bool {
+		f := funcValueOf(p, fnv)
+		if f == nil {
+			return false
+		}
+		hit := false
+		engine.ForEachInstr(f, func(in ssa.Instruction) {
+			if bo, ok := in.(*ssa.BinOp); ok && bo.Op == token.EQL {
+				for _, o := range []ssa.Value{bo.X, bo.Y} {
+					if z, ok := engine.ConstInt(o); ok && z == 0x16 {
+						hit = true
+					}
+				}
+			}
+		})
+		return hit
+	}
+	for _, f := range p.RepoFuncs() {
+		if f.Pkg == nil || !strings.HasSuffix(f.Pkg.Pkg.Path(), "/server") {
+			continue
+		}
+		engine.ForEachInstr(f, func(in ssa.Instruction) {
+			switch x := in.(type) {
+			case *ssa.Call:
+				o := engine.CalleeObj(x)
+				args := engine.CallArgs(x)
+				switch {
+				case engine.SameFunc(o, muxHTTPS) && len(args) >= 2:
+					if z, ok := constInt(args[1]); ok {
+						httpsPrio = append(httpsPrio, z)
+					} else {
+						undecided = "the priority of a ListenHTTPS registration is not a constant"
+					}
+					pos = in.Pos()
+				case engine.SameFunc(o, muxListen) && len(args) >= 4:
+					if acceptsTLSByte(args[3]) {
+						if z, ok := constInt(args[1]); ok {
+							tlsPrio = append(tlsPrio, z)
+						} else {
+							undecided = "the priority of the TLS sub-listener is not a constant"
+						}
+						pos = in.Pos()
+					}
+				}
+			case *ssa.MakeClosure:
+				// ListenHTTPS used as a method value and handed to a helper that calls it with the priority
+				bf, _ := x.Fn.(*ssa.Function)
+				if bf == nil || bf.Synthetic == "" || !engine.SameFunc(bf.Object().(*types.Func), muxHTTPS) {
+					return
+				}
+				found := false
+				for _, r := range *x.Referrers() {
+					call, ok := r.(ssa.CallInstruction)
+					if !ok {
+						continue
+					}
+					cf := engine.CalleeFn(call)
+					if cf == nil {
+						continue
+					}
+					for i, a := range engine.CallArgs(call) {
+						if a != ssa.Value(x) || i >= len(cf.Params) {
+							continue
+						}
+						pr := cf.Params[i]
+						engine.ForEachInstr(cf, func(y ssa.Instruction) {
+							if c2, ok := y.(*ssa.Call); ok && c2.Call.Value == ssa.Value(pr) && len(c2.Call.Args) >= 1 {
+								if z, ok := constInt(c2.Call.Args[0]); ok {
+									httpsPrio = append(httpsPrio, z)
+									found = true
+								}
+							}
+						})
+					}
+				}
+				if !found {
+					undecided = "ListenHTTPS is used as a function value whose priority argument cannot be found"
+				}
+				pos = in.Pos()
+			}
+		})
+	}
+	key := "server>mux-priorities"
+	switch {
+	case undecided != "":
+		c.Undecide(key, pos, "%s", undecided)
+	case len(httpsPrio) == 0 || len(tlsPrio) == 0:
+		c.Undecide(key, pos, "expected a ListenHTTPS registration and a sub-listener accepting 0x16 (found %d and %d)", len(httpsPrio), len(tlsPrio))
+	default:
+		okAll := true
+		for _, t := range tlsPrio {
+			for _, h := range httpsPrio {
+				if t <= h {
+					okAll = false
+				}
+			}
+		}
+		c.Check(okAll, key, pos, len(httpsPrio)+len(tlsPrio), []string{fmt.Sprintf("ListenHTTPS priorities %v, 0x16-accepting listener priorities %v", httpsPrio, tlsPrio)},
+			"the HTTPS vhost sub-listener is asked before the frp-TLS sub-listener")
+	}
+	c.Floor(len(httpsPrio)+len(tlsPrio), 2)
 }
 
 // ---- R2 ----
